@@ -338,6 +338,11 @@ def run_episode(
             # steps after a LAST: every other one plays any in-spec action (legal or not for the terminal state), the others
             # continue with the episode's policy
             a = pol_random(ctx)
+        elif after_last > 0:
+            try:  # the state after a LAST need not be one the episode's policy can read (a head outside the board ...)
+                a = pol(ctx)
+            except Exception:
+                a = pol_random(ctx)
         else:
             a = pol(ctx)
         s2, ts2 = runner.step(state, a)
